@@ -5,10 +5,15 @@
 # then stores it as /verif/seeded/<PROP>-m<k>/ and runs the named checks against the patched worktree.
 set -u
 P="$1"; K="$2"; shift 2
-SRC="/tmp/wt_$P/mutation/m$K"
-WT="/tmp/cf_${P}_m$K"
-OUT="/verif/seeded/$P-m$K"
-LOG="/dev/shm/confirm_${P}_m$K.log"
+# ROUND=2 takes the second-round worktrees /tmp/w2_<PROP> and stores as <PROP>-r2m<k>
+if [ "${ROUND:-1}" = 2 ]; then
+  SRC="/tmp/w2_$P/mutation/m$K"; TAG="r2m$K"
+else
+  SRC="/tmp/wt_$P/mutation/m$K"; TAG="m$K"
+fi
+WT="/tmp/cf_${P}_$TAG"
+OUT="/verif/seeded/$P-$TAG"
+LOG="/dev/shm/confirm_${P}_$TAG.log"
 : > "$LOG"
 git -C /repo worktree remove --force "$WT" >/dev/null 2>&1
 rm -rf "$WT"
@@ -20,7 +25,7 @@ git apply "$SRC/patch.diff" >>"$LOG" 2>&1 || { echo "$P m$K: patch does not appl
 PYTHONPATH="$WT/src" timeout 1200 /venv/bin/python "$SRC/demo.py" >>"$LOG" 2>&1; mutated=$?
 PYTHONPATH="$WT/src" timeout 1500 /venv/bin/python -m pytest -q -p no:cacheprovider --timeout=900 -x --deselect "tests/test_create.py::test_roundtrip" >"$LOG.pytest" 2>&1; suite=$?
 tail -1 "$LOG.pytest" >>"$LOG"
-echo "$P m$K: demo clean=$clean mutated=$mutated suite_exit=$suite ($(tail -1 "$LOG.pytest"))"
+echo "$P $TAG: demo clean=$clean mutated=$mutated suite_exit=$suite ($(tail -1 "$LOG.pytest"))"
 if [ "$clean" = 0 ] && [ "$mutated" != 0 ] && [ "$suite" = 0 ]; then
   mkdir -p "$OUT"
   cp "$SRC/patch.diff" "$OUT/patch.diff"; cp "$SRC/demo.py" "$OUT/demo.py"; cp "$SRC/NOTES.md" "$OUT/NOTES.md" 2>/dev/null
